@@ -364,6 +364,44 @@ def clause_g(facts, rep):
     return n
 
 
+SIGNED_LANE_CMP = ('_mm_cmpgt_epi8', '_mm_cmplt_epi8', '_mm256_cmpgt_epi8', '_mm_cmpgt_epi16', '_mm_cmplt_epi16', '_mm256_cmpgt_epi16')
+
+
+def clause_h(facts, rep):
+    """The relational operators of the *unsigned* byte vector wrappers (simd128<uint8_t>, simd256<uint8_t>) order
+    lanes as unsigned bytes: followed through the helpers of the wrapper classes they call, they contain no signed
+    lane compare (pcmpgtb / pcmpltb) unless the operands are first biased by 0x80.  The string scanners classify
+    control characters with `v < 0x20` / `v <= 0x1f`; a signed compare puts every byte >= 0x80 into that class."""
+    n = 0
+    for f in facts.functions:
+        if not f.short.startswith('operator') or f.short[8:] not in ('<', '<=', '>', '>='):
+            continue
+        cls = f.cls or f.cls_qn or ''
+        if 'simd' not in cls or not ('unsigned char' in f.name or 'uint8_t' in f.name):
+            continue
+        seen = {f.id}
+        work = [f]
+        names = []
+        biased = False
+        while work:
+            g = work.pop()
+            for _, _, _, e in g.walk():
+                if e.get('k') in ('call', 'ctor') and e.get('cname'):
+                    names.append(e['cname'])
+                    if e['cname'] in ('_mm_xor_si128', '_mm256_xor_si256') and any(cval(y) in (0x80, -128, 128) for y in walk(e) if isinstance(y, dict)):
+                        biased = True
+                    h = facts.by_id.get(e.get('cid'))
+                    if h is not None and h.id not in seen and 'simd' in (h.cls or h.cls_qn or '') and len(seen) < 40:
+                        seen.add(h.id)
+                        work.append(h)
+        rep.fn(f)
+        n += 1
+        bad = sorted(set(names) & set(SIGNED_LANE_CMP))
+        rep.check(not bad or biased, 'E9.unsigned-lanes', f.name.split('(')[0][:100], 'unsigned byte order: %s' % f.short, f.loc,
+                  'uses the signed lane compare %s without a 0x80 bias: bytes >= 0x80 would compare below every ASCII byte' % bad, facts.config)
+    return n
+
+
 def run(rep, tier):
     f1 = get_facts('K1')
     f3 = get_facts('K3')
@@ -380,6 +418,9 @@ def run(rep, tier):
     n1 = clause_g(f1, rep)
     n3 = clause_g(f3, rep)
     rep.require(n1 >= 1 and n3 >= 1, 'C15.g: composed masks found: avx2 %d, sse %d' % (n1, n3))
+    h1 = clause_h(f1, rep)
+    h3 = clause_h(f3, rep)
+    rep.require(h1 >= 1 and h3 >= 1, 'C15.h: unsigned vector relational operators found: avx2 %d, sse %d' % (h1, h3))
     rep.trust('clang 14 front end', 'Intel semantics of the SSE compare / movemask intrinsics', 'simd wrapper contracts (== and unsigned <= followed by to_bitmask)')
     rep.assumptions += [
         'decides structural parity of the three x86 configurations; in the thorough tier every other property re-runs its rules on K3 (static SSE) and K4 (dynamic dispatch)',
